@@ -296,6 +296,58 @@ def run_multi(rec, tier, seed):
                                     rec.violation("extract_loci:multi_wrong_signal", case)
                                     continue
                                 rec.observe(case["sets"], chroms, n_loci, cnt, int(X.sum()))
+        # in_signals (third return value: in_window-sized signal), target_idx for the count filters, custom alphabet / ignore
+        deep = [r for r in interior if all(_expect(r[0], r[2], r[3], w1, w2, 1)[0] == "keep" for (w1, w2) in ((5, 4), (4, 5)))]
+        rs2 = [r for r in deep if r[0] == 0][:6] + [r for r in deep if r[0] == 2][:4]
+        df = pandas.DataFrame(dict(chrom=[r[1] for r in rs2], start=[r[2] for r in rs2], end=[r[3] for r in rs2]))
+        for inp in ("file", "dict"):
+            for jit in (0, 1):
+                for iw2, ow2 in ((3, 2), (2, 3), (4, 4), (5, 1)):
+                    for tidx in (0, 1):
+                        a = dict(sequences=fa, signals=bws, in_signals=bws[::-1]) if inp == "file" else dict(sequences=dseq, signals=dsig, in_signals=dsig[::-1])
+                        exp = []
+                        thr = None
+                        for r in rs2:
+                            cls, eseq, esig = _expect(r[0], r[2], r[3], iw2, ow2, jit)
+                            if cls != "keep":
+                                continue
+                            tot = float(esig[tidx].sum())
+                            if thr is None:
+                                thr = tot
+                            if (tidx == 0 and tot < thr) or (tidx == 1 and tot > thr):
+                                continue
+                            mid = r[2] + (r[3] - r[2]) // 2
+                            lo_i, hi_i = mid - iw2 // 2 - jit, mid + iw2 // 2 + jit + iw2 % 2
+                            ins = numpy.array([[_sig(r[0], p_, t) for p_ in range(lo_i, hi_i)] for t in (1, 0)], dtype=numpy.float32)
+                            exp.append((eseq, esig, ins))
+                        kw = dict(min_counts=thr) if tidx == 0 else dict(max_counts=thr)
+                        st, val = call(extract_loci, df, in_window=iw2, out_window=ow2, max_jitter=jit, target_idx=tidx, **a, **kw)
+                        case = dict(fn="extract_loci", input=inp, in_window=iw2, out_window=ow2, max_jitter=jit, target_idx=tidx, in_signals=True,
+                                    loci=[(r[1], r[2], r[3]) for r in rs2], threshold=thr)
+                        rec.case(1, 1)
+                        if st != "ok" or len(val) != 3:
+                            rec.violation("extract_loci:in_signals_raises", case, observed=val if st != "ok" else len(val))
+                            continue
+                        X, y, z = val
+                        if len(exp) != X.shape[0] or not numpy.array_equal(X.numpy(), numpy.stack([e[0] for e in exp])) or \
+                                not numpy.array_equal(y.numpy().astype(numpy.float32), numpy.stack([e[1] for e in exp])):
+                            rec.violation("extract_loci:wrong_rows_with_in_signals_or_target_idx", case, expected=len(exp), observed=list(X.shape))
+                            continue
+                        if not numpy.array_equal(z.numpy().astype(numpy.float32), numpy.stack([e[2] for e in exp])):
+                            rec.violation("extract_loci:wrong_in_signal", case, expected=exp[0][2], observed=z[0])
+        # custom alphabet order and ignore characters (FASTA input)
+        st, X = call(extract_loci, df, fa, in_window=4, alphabet=["T", "G", "C", "A"], ignore=["N"])
+        rec.case(1, 1)
+        if st == "ok":
+            exp = []
+            for r in rs2:
+                cls, eseq, _ = _expect(r[0], r[2], r[3], 4, 1, 0, with_signal=False)
+                if cls == "keep":
+                    exp.append(eseq[::-1])
+            if not numpy.array_equal(X.numpy(), numpy.stack(exp)):
+                rec.violation("extract_loci:custom_alphabet_wrong", dict(fn="extract_loci", alphabet="TGCA"))
+        else:
+            rec.violation("extract_loci:custom_alphabet_raises", dict(fn="extract_loci", alphabet="TGCA"), observed=X)
         rec.sample(dict(kind="multi", locus_sets=[[len(S) for S in c] for c in sets_cfgs], chroms="None / subsets", n_loci="None,1,2,4",
                         counts="none/min/max at the exact window sum"))
     finally:
